@@ -16,6 +16,18 @@ STEM = 'cachemod'
 # A and A2 are written so that their generated sources have exactly the same length.
 SOURCE = '''from bisturi.packet import Packet
 from bisturi.field import Int, Data
+from bisturi.descriptor import AutoLength
+
+
+class Plain(object):
+    # a user's own descriptor: it stores what it is given and computes nothing (no sync hooks)
+    def __get__(self, instance, owner):
+        if instance is None:
+            return self
+        return getattr(instance, self.real_field_name)
+
+    def __set__(self, instance, val):
+        setattr(instance, self.real_field_name, val)
 
 
 def make_A(opts):
@@ -71,6 +83,23 @@ def make_E2(opts):
     return _make_E(opts, 'little')
 
 
+def make_D(opts):
+    # D and D2 generate the same per-field code; only the descriptor (its sync hook) differs
+    class K(Packet):
+        __bisturi__ = opts
+        n = Int(1).describe(AutoLength('d'))
+        d = Data(n)
+    return K
+
+
+def make_D2(opts):
+    class K(Packet):
+        __bisturi__ = opts
+        n = Int(1).describe(Plain())
+        d = Data(n)
+    return K
+
+
 def _make_L(opts, end):
     # a LONG declaration (41 fields, generated pack and unpack code of more than 4 KiB each, a cache file of more than 8 KiB);
     # the two declarations differ in the byte order of the LAST field only
@@ -124,6 +153,8 @@ def expected(decl):
             out.append(('ok', (raw[0] * 256 + raw[1],)) if len(raw) >= 2 else ('err',))
         elif decl == 'E2':
             out.append(('ok', (raw[0] + raw[1] * 256,)) if len(raw) >= 2 else ('err',))
+        elif decl in ('D', 'D2'):
+            out.append(('ok', (raw[0], raw[1:1 + raw[0]])) if len(raw) >= 1 and len(raw) >= 1 + raw[0] else ('err',))
         elif decl in ('L', 'L2'):
             if len(raw) < 82:
                 out.append(('err',))
@@ -140,12 +171,17 @@ def expected(decl):
             out.append(('ok', (raw[0], raw[1:1 + raw[0]])) if len(raw) >= 1 and len(raw) >= 1 + raw[0] else ('err',))
     packs = {'A': (b'\x00', b'\x05'), 'A2': (b'\x00', b'\x05'), 'B': (b'\x00\x00', b'\x00\x05'), 'C': (b'\x00\x00', b'\x05\x00'),
              'V': (b'\x00', b'\x05'), 'E': (b'\x00\x00', b'\x00\x05'), 'E2': (b'\x00\x00', b'\x05\x00'),
-             'L': (bytes(82), b'\x05' + bytes(81)), 'L2': (bytes(82), b'\x05' + bytes(81))}[decl]
-    neg = {'A': ('err',), 'A2': ('ok', b'\xff'), 'B': ('err',), 'C': ('err',), 'V': ('err',), 'E': ('err',), 'E2': ('err',), 'L': ('err',), 'L2': ('err',)}[decl]
-    return (tuple(out), ('ok', packs[0]), ('ok', packs[1]), neg)
+             'L': (bytes(82), b'\x05' + bytes(81)), 'L2': (bytes(82), b'\x05' + bytes(81)), 'D': (b'\x00', b'\x05'), 'D2': (b'\x00', b'\x05')}[decl]
+    neg = {'A': ('err',), 'A2': ('ok', b'\xff'), 'B': ('err',), 'C': ('err',), 'V': ('err',), 'E': ('err',), 'E2': ('err',), 'L': ('err',), 'L2': ('err',), 'D': ('err',), 'D2': ('err',)}[decl]
+    extra = ()
+    if decl == 'D':
+        extra = (('ok', b'\x03abc'),)          # K(d=b'abc').pack(): the length is computed
+    elif decl == 'D2':
+        extra = (('ok', b'\x00abc'),)          # the user's descriptor computes nothing
+    return (tuple(out), ('ok', packs[0]), ('ok', packs[1]), neg) + extra
 
 
-FIELDS = {'A': ('a',), 'A2': ('a',), 'B': ('a',), 'C': ('a', 'b'), 'V': ('n', 'd'), 'E': ('a',), 'E2': ('a',), 'L': LNAMES, 'L2': LNAMES}
+FIELDS = {'A': ('a',), 'A2': ('a',), 'B': ('a',), 'C': ('a', 'b'), 'V': ('n', 'd'), 'E': ('a',), 'E2': ('a',), 'L': LNAMES, 'L2': LNAMES, 'D': ('n', 'd'), 'D2': ('n', 'd')}
 
 
 def battery(K, decl):
@@ -168,7 +204,8 @@ def battery(K, decl):
         except Exception as e:
             return ('exc', type(e).__name__, str(e)[:80])
     first = FIELDS[base(decl)][0]
-    return (tuple(out), pk(), pk(**{first: 5}), pk(**{first: -1}))
+    extra = (pk(d=b'abc'),) if base(decl) in ('D', 'D2') else ()
+    return (tuple(out), pk(), pk(**{first: 5}), pk(**{first: -1})) + extra
 
 
 def write_source(scratch):
@@ -363,7 +400,7 @@ def real_define(scratch, clock, decl, opt, write_bytecode, optimize=False):
     env['PYTHONHASHSEED'] = '0'
     env.pop('PYTHONDONTWRITEBYTECODE', None)
     env.pop('PYTHONOPTIMIZE', None)
-    r = subprocess.run([sys.executable] + (['-O'] if optimize else []) + ['-c', code], capture_output=True, text=True, env=env, timeout=120)
+    r = subprocess.run([sys.executable] + (['-O'] if (optimize or sys.flags.optimize) else []) + ['-c', code], capture_output=True, text=True, env=env, timeout=120)
     for line in r.stdout.splitlines():
         if line.startswith('RESULT '):
             out = common.loads(line[7:])
@@ -405,7 +442,7 @@ def real_conc_replay(scratch, clock0, log, decls, opt, wb, bufsize=None):
     for pid in (0, 1):
         code = CONC_CHILD % {'verif': common.VERIF, 'dwb': not wb[pid], 'scratch': scratch, 'clock': clock0, 'pid': pid, 'wb': wb[pid],
                              'decl': decls[pid], 'opt': opt, 'bufsize': bufsize}
-        procs.append(subprocess.Popen([sys.executable, '-c', code], stdin=subprocess.PIPE, stdout=subprocess.PIPE, stderr=subprocess.PIPE,
+        procs.append(subprocess.Popen([sys.executable] + (['-O'] if sys.flags.optimize else []) + ['-c', code], stdin=subprocess.PIPE, stdout=subprocess.PIPE, stderr=subprocess.PIPE,
                                       text=True, env=env, bufsize=1))
     clock = clock0
     results = [None, None]
